@@ -26,22 +26,24 @@ impl Tour {
     pub open spec fn node_at(&self, j: int) -> Node { self.network.sp_node(self.nodes@[j]) }
     pub open spec fn end_at(&self, j: int) -> DateTime { self.network.sp_node(self.nodes@[j]).sp_end_time() }
     pub open spec fn start_at(&self, j: int) -> DateTime { self.network.sp_node(self.nodes@[j]).sp_start_time() }
-    /// C01/C10 clause 1: a tour is a chronological path of connectable nodes; a real tour runs
-    /// from a start depot to an end depot with at least one activity and no inner depot; a dummy
-    /// tour has no depot
-    pub open spec fn wf(&self) -> bool {
-        &&& self.network.wf()
-        &&& self.nodes@.len() >= 1
-        &&& all_in_net(&self.network, self.nodes@)
-        &&& connected(&self.network, self.nodes@)
-        &&& (self.is_dummy ==> no_depot(&self.network, self.nodes@))
-        &&& (!self.is_dummy ==> {
-            &&& self.nodes@.len() >= 3
-            &&& self.network.sp_node(self.nodes@[0]) is StartDepot
-            &&& self.network.sp_node(self.nodes@[self.len() - 1]) is EndDepot
-            &&& no_depot(&self.network, self.nodes@.subrange(1, self.len() - 1))
-        })
-    }
+    /// C01/C10 clause 1 (see `tour_wf`)
+    pub open spec fn wf(&self) -> bool { tour_wf(&self.network, self.nodes@, self.is_dummy) }
+}
+/// C01/C10 clause 1: a tour is a chronological path of connectable nodes; a real tour runs
+/// from a start depot to an end depot with at least one activity and no inner depot; a dummy
+/// tour has no depot
+pub open spec fn tour_wf(net: &Network, nodes: Seq<NodeIdx>, is_dummy: bool) -> bool {
+    &&& net.wf()
+    &&& nodes.len() >= 1
+    &&& all_in_net(net, nodes)
+    &&& connected(net, nodes)
+    &&& (is_dummy ==> no_depot(net, nodes))
+    &&& (!is_dummy ==> {
+        &&& nodes.len() >= 3
+        &&& net.sp_node(nodes[0]) is StartDepot
+        &&& net.sp_node(nodes[nodes.len() - 1]) is EndDepot
+        &&& no_depot(net, nodes.subrange(1, nodes.len() - 1))
+    })
 }
 
 impl Tour {
